@@ -275,6 +275,8 @@ func (sc *scenario) hook(name string, args ...interface{}) {
 			sc.accum += int64(sc.lastLen)
 		} else {
 			sc.accum = 0
+			// the drainer will close and re-dial: it is not idle again before that dial has returned
+			atomic.StoreInt32(&sc.connected, 0)
 		}
 		sc.add(t, t, core.Ev{"ev": "Sent", "a": sc.actor(), "err": err})
 		g = sc.gates[fmt.Sprintf("sent:%d", sc.curID)]
@@ -282,6 +284,8 @@ func (sc *scenario) hook(name string, args ...interface{}) {
 		err := args[1] != nil
 		if !err {
 			atomic.AddInt64(&sc.bytesOK, sc.accum)
+		} else if sc.mode == "worker" {
+			atomic.StoreInt32(&sc.connected, 0) // as above: the worker closes after a failed flush
 		}
 		sc.accum = 0
 		sc.add(t, t, core.Ev{"ev": "Flushed", "a": sc.actor(), "err": err})
